@@ -5,6 +5,7 @@
 use serde_json::{json, Value};
 
 pub mod redact;
+pub mod sign;
 
 pub struct Report {
     pub bound: String,
@@ -26,6 +27,7 @@ impl Report {
 pub fn run(name: &str, tier: &str) -> Option<Value> {
     Some(match name {
         "redact" => redact::run(tier).to_json(),
+        "sign" => sign::run(tier).to_json(),
         _ => return None,
     })
 }
